@@ -311,6 +311,10 @@ def compute_tau(u):
         tau = u.real("active_set_tau")
         params.fields["active_set_tau"] = tau
     problem = mk_problem(u)
+    # requires n >= 1: compute_tau runs inside a step computation, and the termination gate lets the loop reach one
+    # only for a problem with at least one variable (proved: C02._check_terminate:no_status=>the_problem_has_at_least
+    # _one_variable).  Without it `np.max(tau_vals)` of the LargestActiveSet rule is a reduction of an empty array.
+    u.assume(problem.fields["__n__"] >= 1)
     ctrl = u.construct(SC + "fixed_control.FixedStepSizeController", problem, params)
     itx = mk_iterate(u, problem, params, "it", in_box=True)
     rho = u.real("rho")
